@@ -49,3 +49,4 @@ include!("c11.rs");
 include!("c05.rs");
 include!("c04.rs");
 include!("c06.rs");
+include!("c07.rs");
